@@ -186,7 +186,10 @@ func c02(c *Ctx) {
 	// aht.ResetSize callers in the store
 	c.ruleWhoMayCall("C02.4/aht-reset-sites", "aht.ResetSize", func(in ssa.Instruction) bool {
 		return callTo("embedded/ahtree.(*AHtree).ResetSize")(in) && fnInPkgs(in.Parent(), pk)
-	}, []string{storePkg + "OpenWith", storeT + "performPrecommit", storeT + "DiscardPrecommittedTxsSince"}, 3)
+	}, []string{storePkg + "OpenWith", storeT + "performPrecommit", storeT + "DiscardPrecommittedTxsSince",
+		// open-time only (called by OpenWith before the store is shared): rewinds leaves that do not match the chain (fix C03.8)
+		storeT + "rewindStaleBinaryLinking"}, 3)
+	c.ruleWhoMayCall("C02.4/aht-reset-sites", "rewindStaleBinaryLinking", callTo(storeT+"rewindStaleBinaryLinking"), []string{storePkg + "OpenWith"}, 1)
 
 	// ---- C02.6 frontier pairs move together ------------------------------------------------------------------------
 	// (txID, alh) of the precommit frontier and of the commit frontier denote one position of the hash chain: whoever
